@@ -26,3 +26,28 @@ def c18_count_heuristic(v, params):
     declared = [[t['schema'], t['name']] for t in m['tables']]
     predicted = sorted(declared, key=lambda t: -counts.get(t[1], 0))
     return predicted == case.get('observed_order')
+
+
+def c01_dotted_name(v, params):
+    """Recorded defect: names containing '.' are flattened to 'schema.name' strings and split again on
+    '.', so a dotted table/schema name cannot be listed in a TableGroup and a dotted enum name/schema
+    cannot be used as a column type."""
+    c = v['case']
+    if c.get('mode') != 'ident' or '.' not in c.get('name', ''):
+        return False
+    text = v['detail'] + ' ' + ' '.join(map(str, v.get('observed') or []))
+    if c['pos'] in ('table', 'schema'):
+        return 'TableNotFoundError' in text
+    if c['pos'] in ('enum', 'enum_schema'):
+        return 'ValueError' in text or '.type' in text
+    return False
+
+
+def c01_comma_column(v, params):
+    """Recorded defect: a standalone Ref flattens its column list to text and splits it on ',', so a
+    (quoted) column name containing a comma cannot be referenced."""
+    c = v['case']
+    if c.get('mode') != 'ident' or ',' not in c.get('name', '') or c['pos'] not in ('column', 'ref_target_col'):
+        return False
+    text = v['detail'] + ' ' + ' '.join(map(str, v.get('observed') or []))
+    return 'ColumnNotFoundError' in text
